@@ -172,6 +172,21 @@ theorem c06y_scale_core {l : Level} (hq : c02v_QsWF l) (f : Nat) {e : Nat} (he :
 theorem c06y_size_max {m n : Nat} (hm : m = 0 ∨ (2 ≤ m ∧ m ≤ 16)) (hn : n = 0 ∨ (2 ≤ n ∧ n ≤ 16)) :
     max m n = 0 ∨ (2 ≤ max m n ∧ max m n ≤ 16) := by omega
 
+/-- the balancing branch with the multipliers as data (only their word size is needed for the residue arithmetic) -/
+theorem c06y_balanced_core' {l : Level} (hq : c02v_QsWF l) {a b : Ct} (ha : c05u_CtCanon l a)
+    (hb : c05u_CtCanon l b) (sub : Bool) (hntt : a.ntt = b.ntt) (hne : a.cf ≠ b.cf)
+    {f e1 e2 : Nat} (he1 : e1 < 2^64) (he2 : e2 < 2^64) (hbal : balanceCorrectionFactors a.cf b.cf l.t = .ok (f, e1, e2)) :
+    ∃ r, ctTranslateBalanced l a b sub = .ok r ∧ c05u_CtCanon l r ∧ r.polys.size = max a.polys.size b.polys.size ∧
+      r.ntt = a.ntt ∧ r.cf = f := by
+  obtain ⟨a', ha', ca, sa, na, fa⟩ := c06y_scale_core hq f (e := e1) he1 ha
+  obtain ⟨b', hb', cb, sb, nb, fb⟩ := c06y_scale_core hq f (e := e2) he2 hb
+  obtain ⟨r, hr, cr, sr, nr, fr⟩ := c06y_translate_core hq ca cb sub (by rw [na, nb, hntt]) (by rw [fa, fb])
+  refine ⟨r, ?_, cr, by rw [sr, sa, sb], by rw [nr, na], by rw [fr, fa]⟩
+  rw [c02v_balanced_eq l a b sub hne, hbal]
+  simp only [bind, Except.bind]
+  rw [ha', hb']
+  exact hr
+
 theorem c06y_balanced_core {l : Level} (hq : c02v_QsWF l) (ht : l.t.WF) {a b : Ct} (ha : c05u_CtCanon l a)
     (hb : c05u_CtCanon l b) (sub : Bool) (hntt : a.ntt = b.ntt) (hne : a.cf ≠ b.cf) (h1 : a.cf < l.t.value)
     (h2 : b.cf < l.t.value) {f e1 e2 : Nat} (hbal : balanceCorrectionFactors a.cf b.cf l.t = .ok (f, e1, e2)) :
@@ -179,14 +194,7 @@ theorem c06y_balanced_core {l : Level} (hq : c02v_QsWF l) (ht : l.t.WF) {a b : C
       r.ntt = a.ntt ∧ r.cf = f := by
   obtain ⟨he1, he2, _, _⟩ := c02v_balance_inv ht h1 h2 hbal
   have htlt := ht.lt
-  obtain ⟨a', ha', ca, sa, na, fa⟩ := c06y_scale_core hq f (e := e1) (by omega) ha
-  obtain ⟨b', hb', cb, sb, nb, fb⟩ := c06y_scale_core hq f (e := e2) (by omega) hb
-  obtain ⟨r, hr, cr, sr, nr, fr⟩ := c06y_translate_core hq ca cb sub (by rw [na, nb, hntt]) (by rw [fa, fb])
-  refine ⟨r, ?_, cr, by rw [sr, sa, sb], by rw [nr, na], by rw [fr, fa]⟩
-  rw [c02v_balanced_eq l a b sub hne, hbal]
-  simp only [bind, Except.bind]
-  rw [ha', hb']
-  exact hr
+  exact c06y_balanced_core' hq ha hb sub hntt hne (by omega) (by omega) hbal
 
 theorem c06y_bgv_of_cf_ne {l : Level} {f1 f2 : Nat} (h1 : c02v_cfOk l f1) (h2 : c02v_cfOk l f2) (hne : f1 ≠ f2) :
     l.scheme = .bgv ∧ f1 ≠ 0 ∧ f1 ≤ l.t.value ∧ f2 ≠ 0 ∧ f2 ≤ l.t.value := by
@@ -212,6 +220,39 @@ theorem c06y_ne_zero_of_coprime {f t : Nat} (h2 : 2 ≤ t) (hc : Nat.Coprime f t
   rintro rfl
   rw [Nat.Coprime, Nat.gcd_zero_left] at hc
   omega
+
+/-! ## levels: the next level of the chain, for validity -/
+
+/-- `l'` is the level below `l` for the purposes of validity: the moduli are the prefix without the last prime (`c05u_IsNext`),
+    same scheme, same plain modulus value -/
+structure c06y_NextLevel (l l' : Level) : Prop extends c05u_IsNext l l' where
+  scheme : l'.scheme = l.scheme
+  t : l'.t.value = l.t.value
+
+theorem c06y_next_scale {l l' : Level} (hn : c06y_NextLevel l l') {s1 s2 : Bool} (h : c06y_scaleOk l s1 s2) :
+    c06y_scaleOk l' s1 s2 := by
+  unfold c06y_scaleOk at h ⊢
+  rw [hn.scheme]; exact h
+
+theorem c06y_next_cf {l l' : Level} (hn : c06y_NextLevel l l') {f : Nat} (h : c02v_cfOk l f) : c02v_cfOk l' f := by
+  unfold c02v_cfOk at h ⊢
+  rw [hn.scheme, hn.t]; exact h
+
+theorem c06y_unit_cancel {cf invt qL t : Nat} (h1 : (invt * qL) % t = 1) (h0 : (cf * invt) % t = 0) : cf % t = 0 := by
+  have e : cf % t = ((cf * invt) % t * qL) % t := by
+    rw [Nat.mod_mul_mod, Nat.mul_assoc, ← Nat.mul_mod_mod, h1, Nat.mul_one]
+  rw [e, h0, Nat.zero_mul, Nat.zero_mod]
+
+/-- the new BGV correction factor `cf·q_L^{-1} mod t` of a factor in [1, t] vanishes exactly for `cf = t` -/
+theorem c06y_bgv_cf_next {cf invt qL t : Nat} (ht : 2 ≤ t) (h1 : (invt * qL) % t = 1) (hc0 : cf ≠ 0) (hct : cf ≤ t) :
+    (cf * invt) % t ≠ 0 ↔ cf ≠ t := by
+  constructor
+  · rintro h rfl
+    exact h (Nat.mul_mod_right _ _)
+  · intro hne h0
+    have := c06y_unit_cancel h1 h0
+    rw [Nat.mod_eq_of_lt (by omega)] at this
+    exact hc0 this
 
 theorem c06y_mapM_length {α β : Type} (F : α → R β) : ∀ (xs : List α) (ys : List β), xs.mapM F = .ok ys → ys.length = xs.length
   | [], ys, h => by
@@ -430,5 +471,232 @@ theorem ctMultiplyDyadic_size {l : Level} {a b r : Ct} (hr : ctMultiplyDyadic l 
     have hlen := c06y_mapM_length _ _ _ hps
     simp only [List.length_range] at hlen
     exact ⟨by simp [hlen], by omega, by omega, hna, hnb, hna, rfl⟩
+
+/-- Y2 `bgv_multiply`: on valid non-empty NTT-form BGV operands the model succeeds with correction factor `cf_a·cf_b mod t`;
+    the result is valid IF AND ONLY IF the size fits and that product is non-zero modulo t -/
+theorem bgvMultiply_valid_iff {l : Level} (hq : c02v_QsWF l) (ht : l.t.WF) (hs : l.scheme = .bgv) {a b : Ct}
+    {s1 s2 s1' s2' : Bool} (ha : ctValid l a s1 s2 = true) (hb : ctValid l b s1' s2' = true) (hna : a.ntt = true)
+    (hnb : b.ntt = true) (h0a : a.polys.size ≠ 0) (h0b : b.polys.size ≠ 0) :
+    ∃ r, bgvMultiply l a b = .ok r ∧ r.polys.size = a.polys.size + b.polys.size - 1 ∧ r.ntt = true ∧
+      r.cf = (a.cf * b.cf) % l.t.value ∧
+      (ctValid l r s1 s2 = true ↔ a.polys.size + b.polys.size - 1 ≤ 16 ∧ (a.cf * b.cf) % l.t.value ≠ 0) := by
+  have va := c06y_valid_parts ha
+  have vb := c06y_valid_parts hb
+  obtain ⟨c, hc, sc, nc, fc, cc, hv⟩ := ctMultiplyDyadic_valid hq ha hb hna hnb h0a h0b
+  have fa := (c06y_cfOk_bgv hs _).mp va.cf
+  have fb := (c06y_cfOk_bgv hs _).mp vb.cf
+  have htlt := ht.lt
+  have h2 := ht.two_le
+  refine ⟨_, bgvMultiply_spec ht hc (by omega) (by omega), sc, nc, rfl, fun hr => ?_, fun hr => ?_⟩
+  · have v := c06y_valid_parts hr
+    have hsz : c.polys.size = 0 ∨ (2 ≤ c.polys.size ∧ c.polys.size ≤ 16) := v.size
+    have hcf : (a.cf * b.cf) % l.t.value ≠ 0 ∧ (a.cf * b.cf) % l.t.value ≤ l.t.value := (c06y_cfOk_bgv hs _).mp v.cf
+    have : c.polys.size ≠ 0 := by rw [sc]; have := va.size; have := vb.size; omega
+    exact ⟨by rw [← sc]; exact (by omega : c.polys.size ≤ 16), hcf.1⟩
+  · have vc := c06y_valid_parts (hv.mpr hr.1)
+    exact c06y_valid_mk vc.size cc va.scale ((c06y_cfOk_bgv hs _).mpr ⟨hr.2, (Nat.mod_lt _ (by omega)).le⟩)
+
+/-- Y2 `bgv_multiply`, unit correction factors: the result is valid -/
+theorem bgvMultiply_valid {l : Level} (hq : c02v_QsWF l) (ht : l.t.WF) (hs : l.scheme = .bgv) {a b : Ct}
+    {s1 s2 s1' s2' : Bool} (ha : ctValid l a s1 s2 = true) (hb : ctValid l b s1' s2' = true) (hna : a.ntt = true)
+    (hnb : b.ntt = true) (h0a : a.polys.size ≠ 0) (h0b : b.polys.size ≠ 0) (h16 : a.polys.size + b.polys.size - 1 ≤ 16)
+    (c1 : Nat.Coprime a.cf l.t.value) (c2 : Nat.Coprime b.cf l.t.value) :
+    ∃ r, bgvMultiply l a b = .ok r ∧ ctValid l r s1 s2 = true ∧ r.polys.size = a.polys.size + b.polys.size - 1 ∧
+      r.ntt = true ∧ r.cf = (a.cf * b.cf) % l.t.value ∧ Nat.Coprime r.cf l.t.value := by
+  obtain ⟨r, hr, sr, nr, fr, hv⟩ := bgvMultiply_valid_iff hq ht hs ha hb hna hnb h0a h0b
+  have hcop : Nat.Coprime ((a.cf * b.cf) % l.t.value) l.t.value := by
+    unfold Nat.Coprime
+    rw [← Nat.gcd_rec, Nat.gcd_comm]
+    exact Nat.Coprime.mul_left c1 c2
+  exact ⟨r, hr, hv.mpr ⟨h16, c06y_ne_zero_of_coprime ht.two_le hcop⟩, sr, nr, fr, by rw [fr]; exact hcop⟩
+
+theorem bgvMultiply_preserves_valid {l : Level} (hq : c02v_QsWF l) (ht : l.t.WF) (hs : l.scheme = .bgv) {a b r : Ct}
+    {s1 s2 s1' s2' : Bool} (ha : ctValid l a s1 s2 = true) (hb : ctValid l b s1' s2' = true)
+    (hr : bgvMultiply l a b = .ok r) (h16 : a.polys.size + b.polys.size - 1 ≤ 16)
+    (c1 : Nat.Coprime a.cf l.t.value) (c2 : Nat.Coprime b.cf l.t.value) : ctValid l r s1 s2 = true := by
+  have hna : a.ntt = true := by
+    by_contra h; rw [bgvMultiply_refuse l a b (Or.inl (by simpa using h))] at hr; cases hr
+  have hnb : b.ntt = true := by
+    by_contra h; rw [bgvMultiply_refuse l a b (Or.inr (by simpa using h))] at hr; cases hr
+  have h0 : a.polys.size ≠ 0 ∧ b.polys.size ≠ 0 := by
+    by_contra h
+    unfold bgvMultiply at hr
+    rw [ctMultiplyDyadic_refuse_empty l a b hna hnb (by omega)] at hr; cases hr
+  obtain ⟨r', hr', hv, _⟩ := bgvMultiply_valid hq ht hs ha hb hna hnb h0.1 h0.2 h16 c1 c2
+  rw [hr] at hr'; cases hr'; exact hv
+
+/-- Y2 `multiply_plain_ntt`: total on valid NTT-form ciphertexts and canonical plaintexts, result valid -/
+theorem ctMultiplyPlainNtt_valid {l : Level} (hq : c02v_QsWF l) {a : Ct} {s1 s2 : Bool} (ha : ctValid l a s1 s2 = true)
+    (hna : a.ntt = true) {p : RnsPoly} (hp : RnsCanon l p) :
+    ∃ r, ctMultiplyPlainNtt l a p = .ok r ∧ ctValid l r s1 s2 = true ∧ r.polys.size = a.polys.size ∧ r.ntt = true ∧
+      r.cf = a.cf := by
+  have v := c06y_valid_parts ha
+  obtain ⟨ps, h1, h2, h3⟩ := c06y_polys_map (l' := l) (fun c => rnsDyadic l c p) v.canon (fun c hc => by
+    obtain ⟨r, hr, hcr, _⟩ := c02v_rnsDyadic_spec hq hc hp
+    exact ⟨r, hr, hcr⟩)
+  refine ⟨{ a with polys := ps.toArray }, ?_, c06y_valid_mk (by rw [h2]; exact v.size)
+    (fun k hk => h3 k (by rw [← h2]; exact hk)) v.scale v.cf, h2, hna, rfl⟩
+  unfold ctMultiplyPlainNtt
+  rw [if_neg (by simp [hna])]
+  erw [h1]; rfl
+
+theorem ctMultiplyPlainNtt_preserves_valid {l : Level} (hq : c02v_QsWF l) {a r : Ct} {s1 s2 : Bool}
+    (ha : ctValid l a s1 s2 = true) {p : RnsPoly} (hp : RnsCanon l p) (hr : ctMultiplyPlainNtt l a p = .ok r) :
+    ctValid l r s1 s2 = true := by
+  have hna : a.ntt = true := by
+    by_contra h; rw [ctMultiplyPlainNtt_refuse l a p (by simpa using h)] at hr; cases hr
+  obtain ⟨r', hr', hv, _⟩ := ctMultiplyPlainNtt_valid hq ha hna hp
+  rw [hr] at hr'; cases hr'; exact hv
+
+/-! ### the unit hypothesis on BGV correction factors is needed: witnesses at the level `c02v_exLevel` (q = 17·17, N = 2, t = 5) -/
+
+/-- `c02v_exCt2` with the correction factor replaced by `f` -/
+def c06y_exCt (f : Nat) : Ct := { c02v_exCt2 with cf := f }
+
+theorem c06y_exCt_valid (f : Nat) (h0 : f ≠ 0) (h5 : f ≤ 5) : ctValid c02v_exLevel (c06y_exCt f) true false = true :=
+  ctValid_of_CtCanon ⟨⟨c02v_exCt2_canon.two_le, c02v_exCt2_canon.le16, c02v_exCt2_canon.canon⟩, ⟨h0, h5⟩⟩ (rfl : true = true)
+
+/-- FINDING (validity predicate): `bgv_multiply` of two VALID ciphertexts (correction factors t = 5 and 2) succeeds and returns a
+    ciphertext with correction factor 0, which is NOT valid: validity is not preserved without the unit hypothesis -/
+theorem bgvMultiply_valid_needs_unit :
+    ∃ a b r, ctValid c02v_exLevel a true false = true ∧ ctValid c02v_exLevel b true false = true ∧
+      bgvMultiply c02v_exLevel a b = .ok r ∧ r.cf = 0 ∧ ctValid c02v_exLevel r true false = false := by
+  have ha := c06y_exCt_valid 5 (by decide) (by decide)
+  have hb := c06y_exCt_valid 2 (by decide) (by decide)
+  obtain ⟨r, hr, _, _, fr, hv⟩ := bgvMultiply_valid_iff c02v_exLevel_qsWF c02v_exT_wf rfl ha hb rfl rfl (by decide) (by decide)
+  have f0 : r.cf = 0 := fr
+  refine ⟨_, _, r, ha, hb, hr, f0, ?_⟩
+  cases h : ctValid c02v_exLevel r true false
+  · rfl
+  · exact absurd f0 ((c06y_cfOk_bgv rfl _).mp (c06y_valid_parts h).cf).1
+
+/-- FINDING: a VALID first operand (correction factor t) is REFUSED by the balanced add / sub ("accepted by any later operation"
+    fails for the non-unit factor that `ctValid` admits) -/
+theorem ctTranslateBalanced_refuses_valid (sub : Bool) :
+    ∃ a b, ctValid c02v_exLevel a true false = true ∧ ctValid c02v_exLevel b true false = true ∧ a.ntt = b.ntt ∧
+      ctTranslateBalanced c02v_exLevel a b sub = .error .refused :=
+  ⟨c06y_exCt 5, c06y_exCt 2, c06y_exCt_valid 5 (by decide) (by decide), c06y_exCt_valid 2 (by decide) (by decide), rfl,
+    ctTranslateBalanced_refuse c02v_exT_wf _ _ sub (by decide) (by decide) (by decide)⟩
+
+/-- FINDING: with a VALID second operand of correction factor t the balanced add / sub SUCCEEDS with correction factor 0:
+    the result is not valid -/
+theorem ctTranslateBalanced_valid_needs_unit (sub : Bool) :
+    ∃ a b r, ctValid c02v_exLevel a true false = true ∧ ctValid c02v_exLevel b true false = true ∧
+      ctTranslateBalanced c02v_exLevel a b sub = .ok r ∧ r.cf = 0 ∧ ctValid c02v_exLevel r true false = false := by
+  have ha := c06y_exCt_valid 2 (by decide) (by decide)
+  have hb := c06y_exCt_valid 5 (by decide) (by decide)
+  have hbal : balanceCorrectionFactors (c06y_exCt 2).cf (c06y_exCt 5).cf c02v_exLevel.t = .ok (0, 0, 1) := by decide
+  obtain ⟨r, hr, _, _, _, fr⟩ := c06y_balanced_core' c02v_exLevel_qsWF (c06y_valid_parts ha).canon (c06y_valid_parts hb).canon
+    sub rfl (by decide) (by decide) (by decide) hbal
+  refine ⟨_, _, r, ha, hb, hr, fr, ?_⟩
+  cases h : ctValid c02v_exLevel r true false
+  · rfl
+  · exact absurd fr ((c06y_cfOk_bgv rfl _).mp (c06y_valid_parts h).cf).1
+
+/-! ### modulus switching: the result is valid at the NEXT level -/
+
+/-- Y2 `mod_switch_drop_to_next` (CKKS `mod_switch_to_next`, also the plain drop): total on valid ciphertexts at a level with ≥ 2
+    moduli (CKKS: NTT form), the result is valid at the next level -/
+theorem modSwitchDropNext_valid {l l' : Level} (hn : c06y_NextLevel l l') (h2 : 2 ≤ l.size) {ct : Ct} {s1 s2 : Bool}
+    (hv : ctValid l ct s1 s2 = true) (hs : l.scheme = .ckks → ct.ntt = true) :
+    ∃ r, modSwitchDropNext l ct = .ok r ∧ ctValid l' r s1 s2 = true ∧ r.polys.size = ct.polys.size ∧ r.ntt = ct.ntt ∧
+      r.cf = ct.cf := by
+  have v := c06y_valid_parts hv
+  obtain ⟨r, hr, sr, nr, fr, _, cr⟩ := modSwitchDropNext_spec h2 hs v.canon
+  exact ⟨r, hr, c06y_valid_mk (by rw [sr]; exact v.size) (cr l' hn.toc05u_IsNext) (c06y_next_scale hn v.scale)
+    (by rw [fr]; exact c06y_next_cf hn v.cf), sr, nr, fr⟩
+
+theorem modSwitchDropNext_preserves_valid {l l' : Level} (hn : c06y_NextLevel l l') {ct r : Ct} {s1 s2 : Bool}
+    (hv : ctValid l ct s1 s2 = true) (hr : modSwitchDropNext l ct = .ok r) : ctValid l' r s1 s2 = true := by
+  have h2 : 2 ≤ l.size := by
+    by_contra h; rw [(modSwitchDropNext_refusals ct).1 (by omega)] at hr; cases hr
+  have hs : l.scheme = .ckks → ct.ntt = true := by
+    intro hs
+    by_contra h; rw [(modSwitchDropNext_refusals ct).2 hs (by simpa using h)] at hr; cases hr
+  obtain ⟨r', hr', hv', _⟩ := modSwitchDropNext_valid hn h2 hv hs
+  rw [hr] at hr'; cases hr'; exact hv'
+
+/-- Y2 BFV `mod_switch_to_next`: total on valid coefficient-form ciphertexts, the result is valid at the next level -/
+theorem modSwitchScaleNext_bfv_valid {l l' : Level} (h : c05u_ToolOK l) (hn : c06y_NextLevel l l') (h2 : 2 ≤ l.size)
+    (hs : l.scheme = .bfv) {ct : Ct} {s1 s2 : Bool} (hv : ctValid l ct s1 s2 = true) (hntt : ct.ntt = false) :
+    ∃ r, modSwitchScaleNext l ct = .ok r ∧ ctValid l' r s1 s2 = true ∧ r.polys.size = ct.polys.size ∧ r.ntt = false ∧
+      r.cf = ct.cf := by
+  have v := c06y_valid_parts hv
+  obtain ⟨r, hr, sr, nr, fr, dr⟩ := modSwitchScaleNext_bfv_spec h h2 hs hntt v.canon
+  refine ⟨r, hr, c06y_valid_mk (by rw [sr]; exact v.size) (fun k hk => ?_) (c06y_next_scale hn v.scale)
+    (by rw [fr]; exact c06y_next_cf hn v.cf), sr, nr, fr⟩
+  rw [sr] at hk
+  exact (modSwitchScaleNext_next_canon h hn.toc05u_IsNext).1 (v.canon k hk) (dr k hk)
+
+/-- Y2 CKKS `rescale_to_next`: total on valid NTT-form ciphertexts, the result is valid at the next level (for the flags of the
+    new scale use `ctValid_flags`) -/
+theorem modSwitchScaleNext_ckks_valid {l l' : Level} (hl : l.WF) (h : c05u_ToolOK l) (hn : c06y_NextLevel l l')
+    (h2 : 2 ≤ l.size) (hs : l.scheme = .ckks) {ct : Ct} {s1 s2 : Bool} (hv : ctValid l ct s1 s2 = true)
+    (hntt : ct.ntt = true) :
+    ∃ r, modSwitchScaleNext l ct = .ok r ∧ ctValid l' r s1 s2 = true ∧ r.polys.size = ct.polys.size ∧ r.ntt = true ∧
+      r.cf = ct.cf := by
+  have v := c06y_valid_parts hv
+  obtain ⟨r, hr, sr, nr, fr, dr⟩ := modSwitchScaleNext_ckks_spec hl h h2 hs hntt v.canon
+  refine ⟨r, hr, c06y_valid_mk (by rw [sr]; exact v.size) (fun k hk => ?_) (c06y_next_scale hn v.scale)
+    (by rw [fr]; exact c06y_next_cf hn v.cf), sr, nr, fr⟩
+  rw [sr] at hk
+  exact (modSwitchScaleNext_next_canon (p := ct.polys.getD k #[]) h hn.toc05u_IsNext).2.1 (dr k hk)
+
+/-- Y2 BGV `mod_switch_to_next`: total on valid NTT-form ciphertexts; the polynomials are canonical at the next level, the new
+    correction factor is `cf·q_L^{-1} mod t`, and the result is valid IF AND ONLY IF `cf ≠ t` (in particular for every unit) -/
+theorem modSwitchScaleNext_bgv_valid_iff {l l' : Level} (hl : l.WF) (h : c05u_ToolOK l) (hg : c05u_BgvOK l)
+    (hn : c06y_NextLevel l l') (h2 : 2 ≤ l.size) (hs : l.scheme = .bgv) {ct : Ct} {s1 s2 : Bool}
+    (hv : ctValid l ct s1 s2 = true) (hntt : ct.ntt = true) :
+    ∃ r, modSwitchScaleNext l ct = .ok r ∧ r.polys.size = ct.polys.size ∧ r.ntt = true ∧
+      r.cf = (ct.cf * l.tool.invQLastModT) % l.t.value ∧ c05u_CtCanon l' r ∧
+      (ctValid l' r s1 s2 = true ↔ ct.cf ≠ l.t.value) := by
+  have v := c06y_valid_parts hv
+  have fc := (c06y_cfOk_bgv hs _).mp v.cf
+  have htlt := hg.twf.lt
+  have ht2 := hg.twf.two_le
+  have hs' : l'.scheme = .bgv := by rw [hn.scheme, hs]
+  obtain ⟨r, hr, sr, nr, fr, dr⟩ := modSwitchScaleNext_bgv_spec hl h hg h2 hs hntt (by omega) v.canon
+  have cr : c05u_CtCanon l' r := fun k hk => by
+    rw [sr] at hk
+    exact (modSwitchScaleNext_next_canon (p := ct.polys.getD k #[]) h hn.toc05u_IsNext).2.2 (dr k hk)
+  have key := c06y_bgv_cf_next ht2 hg.invt fc.1 fc.2
+  refine ⟨r, hr, sr, nr, fr, cr, fun hv' => ?_, fun hne => ?_⟩
+  · have := ((c06y_cfOk_bgv hs' _).mp (c06y_valid_parts hv').cf).1
+    rw [fr] at this
+    exact key.mp this
+  · refine c06y_valid_mk (by rw [sr]; exact v.size) cr (c06y_next_scale hn v.scale) ((c06y_cfOk_bgv hs' _).mpr ?_)
+    rw [fr, hn.t]
+    exact ⟨key.mpr hne, (Nat.mod_lt _ (by omega)).le⟩
+
+theorem modSwitchScaleNext_bgv_valid {l l' : Level} (hl : l.WF) (h : c05u_ToolOK l) (hg : c05u_BgvOK l)
+    (hn : c06y_NextLevel l l') (h2 : 2 ≤ l.size) (hs : l.scheme = .bgv) {ct : Ct} {s1 s2 : Bool}
+    (hv : ctValid l ct s1 s2 = true) (hntt : ct.ntt = true) (hu : Nat.Coprime ct.cf l.t.value) :
+    ∃ r, modSwitchScaleNext l ct = .ok r ∧ ctValid l' r s1 s2 = true ∧ r.polys.size = ct.polys.size ∧ r.ntt = true ∧
+      r.cf = (ct.cf * l.tool.invQLastModT) % l.t.value := by
+  obtain ⟨r, hr, sr, nr, fr, _, hiff⟩ := modSwitchScaleNext_bgv_valid_iff hl h hg hn h2 hs hv hntt
+  have fc := (c06y_cfOk_bgv hs _).mp (c06y_valid_parts hv).cf
+  exact ⟨r, hr, hiff.mpr (Nat.ne_of_lt (c06y_lt_of_coprime hg.twf.two_le fc.2 hu)), sr, nr, fr⟩
+
+/-- Y2, `.ok` form for all three schemes: whenever the scheme-specific switch of a valid ciphertext succeeds (and, for BGV, the
+    correction factor is not t), the result is valid at the next level.  `Level.WF` is needed for the NTT-form schemes only. -/
+theorem modSwitchScaleNext_preserves_valid {l l' : Level} (hl : l.scheme ≠ .bfv → l.WF) (h : c05u_ToolOK l)
+    (hg : l.scheme = .bgv → c05u_BgvOK l) (hn : c06y_NextLevel l l') {ct r : Ct} {s1 s2 : Bool}
+    (hv : ctValid l ct s1 s2 = true) (hcf : l.scheme = .bgv → ct.cf ≠ l.t.value)
+    (hr : modSwitchScaleNext l ct = .ok r) : ctValid l' r s1 s2 = true := by
+  have h2 : 2 ≤ l.size := by
+    by_contra h'; rw [(modSwitchScaleNext_refusals ct).1 (by omega)] at hr; cases hr
+  cases hs : l.scheme
+  · have hntt : ct.ntt = false := by
+      by_contra h'; rw [(modSwitchScaleNext_refusals ct).2.1 hs (by simpa using h')] at hr; cases hr
+    obtain ⟨r', hr', hv', _⟩ := modSwitchScaleNext_bfv_valid h hn h2 hs hv hntt
+    rw [hr] at hr'; cases hr'; exact hv'
+  · have hntt : ct.ntt = true := by
+      by_contra h'; rw [(modSwitchScaleNext_refusals ct).2.2.1 hs (by simpa using h')] at hr; cases hr
+    obtain ⟨r', hr', hv', _⟩ := modSwitchScaleNext_ckks_valid (hl (by rw [hs]; decide)) h hn h2 hs hv hntt
+    rw [hr] at hr'; cases hr'; exact hv'
+  · have hntt : ct.ntt = true := by
+      by_contra h'; rw [(modSwitchScaleNext_refusals ct).2.2.2 hs (by simpa using h')] at hr; cases hr
+    obtain ⟨r', hr', _, _, _, _, hiff⟩ := modSwitchScaleNext_bgv_valid_iff (hl (by rw [hs]; decide)) h (hg hs) hn h2 hs hv hntt
+    rw [hr] at hr'; cases hr'; exact hiff.mpr (hcf hs)
 
 end HC
